@@ -58,6 +58,12 @@ def _load():
         spec.loader.exec_module(m)
         PROPS[pid] = m.CFG
         _describe_preempt(pid, m.CFG)
+        for vname, v in m.CFG.get("variants", {}).items():  # other variants may carry their own evidence texts
+            if "bounds_text" in v:
+                for tier in ("quick", "thorough"):
+                    m.CFG["bounds"][tier] += "; " + vname + " (variant): " + v["bounds_text"]
+            if "assumption_text" in v:
+                m.CFG["assumptions"].append(v["assumption_text"])
 
 
 _load()
